@@ -61,6 +61,8 @@ def obj_prog(rng, pool):
 def streams(rng, tier):
     q = tier == "quick"
     out = []
+    for n in ([1100, 2600] if tier == "quick" else [1100, 2600, 6000, 20000]):
+        out.append(Case("large-set", "law.s.large", [str(n), str(rng.randrange(10 ** 6))], kind="law"))
     for _ in range(4500 if q else 110000):
         pool = G.pool_of(rng)
         prog, kind = obj_prog(rng, pool)
